@@ -74,6 +74,12 @@ const SIZES: [u16; SIZE_TIERS - 1] = [
 	24265, 24936, 25626, 26335, 27064, 27812, 28582, 29372, 30185, 31020, 31878, 32760,
 ];
 
+/// Verification hook: entry sizes of the fixed-size tiers.
+#[cfg(pdb_verif)]
+pub fn verif_sizes() -> &'static [u16] {
+	&SIZES
+}
+
 #[derive(Debug)]
 struct Tables {
 	index: IndexTable,
@@ -2119,6 +2125,15 @@ impl Column {
 		match self {
 			Column::Hash(column) => Some(column.stat_summary()),
 			Column::Tree(_column) => None,
+		}
+	}
+
+	/// Verification hook: apply `f` to the value tables of this column.
+	#[cfg(pdb_verif)]
+	pub fn verif_with_value_tables<R>(&self, f: impl FnOnce(&[ValueTable]) -> R) -> R {
+		match self {
+			Column::Hash(column) => f(&column.tables.read().value),
+			Column::Tree(column) => column.verif_with_value_tables(f),
 		}
 	}
 
